@@ -307,9 +307,26 @@ def rule_R13_6(ctx):
     return r
 
 
+def rule_R13_7(ctx):
+    import c20
+    import anchors
+    c20.BMOD[0] = anchors.binder_module(ctx.prog)
+    c20.SMOD[0] = anchors.scope_module(ctx.prog)
+    r = c20.rule_R20_5(ctx)
+    r.rule = "R13.7"
+    r.title = ("every name a pattern or parameter list binds is declared through "
+               "the one binder path that checks for repeated names")
+    r.necessary_for = ("a second declaration path (e.g. inserting parameters "
+                       "straight into the scope map) accepts `fn(a, a)`")
+    for v in r.violations:
+        v.rule = "R13.7"
+        v.key = v.key.replace("R20.5", "R13.7", 1)
+    return r
+
+
 def run(ctx):
     return [rule_R13_1(ctx), rule_R13_2(ctx), rule_R13_3(ctx), rule_R13_4(ctx), rule_R13_5(ctx),
-            rule_R13_6(ctx)]
+            rule_R13_6(ctx), rule_R13_7(ctx)]
 
 
 META = {
